@@ -637,7 +637,7 @@ def tde (enc : Enc) (toks : List TTok) : Nat → Ty → VK → R Val
 
 /-- tape path from the root deserializer (de.rs:899): only maps / structs are supported -/
 def deTape (enc : Enc) (ty : Ty) (toks : List TTok) : R Val :=
-  let f := ty.height + 1
+  let f := ty.height
   match ty with
   | .st fs =>
     (match tMapFold toks (fun seen k vk => structEntry fs (k.decoded enc) (fun t => tde enc toks f t vk) seen)
@@ -836,7 +836,7 @@ def sde (enc : Enc) : Nat → Ty → RTok → Op → List RTok → R (Val × Lis
 
 /-- stream path from the root deserializer (de.rs:171) -/
 def deStream (enc : Enc) (ty : Ty) (toks : List RTok) : R Val :=
-  let f := ty.height + 1
+  let f := ty.height
   match ty with
   | .st fs =>
     (match sMapFold true (sStructKey enc fs) (sStructVal (sde enc f)) (toks.length + 1) toks [] with
